@@ -265,14 +265,29 @@ type ctl struct {
 	off     map[string]bool
 	stamp   atomic.Int64
 	enabled atomic.Bool
+	// auto: the yield points before every statement of ringbuffer.go are in use, i.e. a caller
+	// may also be held inside a critical section (runs with simulation-aware locks)
+	auto bool
+	// subset != 0: every site is switched off for the run with probability 0.35 (hash of subset and name)
+	subset uint64
 }
 
 func (c *ctl) yield(site string) {
 	if !c.enabled.Load() {
 		return
 	}
+	if !c.auto && strings.HasPrefix(site, "auto:") {
+		return
+	}
 	gid := core.GoID()
 	c.mu.Lock()
+	if c.subset != 0 {
+		// this run uses a seeded subset of the sites (between two operations of a task included:
+		// Start directly followed by Close, a Push directly behind a Close ...)
+		if _, ok := c.off[site]; !ok {
+			c.off[site] = core.HS(c.subset, "c16.site", site, 0)%100 < 35
+		}
+	}
 	if c.off[site] {
 		c.mu.Unlock()
 		return
@@ -399,8 +414,19 @@ func runOne(sc *Scenario, seed uint64) (oc outcome) {
 	for _, s := range sc.NoYield {
 		c.off[s] = true
 	}
+	// a third of the runs: simulation-aware locks, callers may be held inside the ring buffer's
+	// critical sections (a Push that finds the mutex taken must wait, not give up)
+	if core.HS(seed, "c16.simlocks", "", 0)%3 == 0 {
+		c.auto = true
+		verifhook.SimLocks = true
+		oc.probes["held_inside_critical_section"] = 1
+	}
+	if core.HS(seed, "c16.subset", "", 0)%100 < 40 {
+		c.subset = core.HS(seed, "c16.subset.seed", "", 0) | 1
+		oc.probes["site_subset"] = 1
+	}
 	verifhook.Yield = c.yield
-	defer func() { verifhook.Yield = nil }()
+	defer func() { verifhook.Yield = nil; verifhook.SimLocks = false }()
 
 	var hmu sync.Mutex
 	var hist []*hop
@@ -1032,9 +1058,9 @@ func init() {
 	f.Real = []string{"pkg/ringbuffer.RingBuffer", "internal/asyncprocessor.Processor (through a verif-tagged type alias)", "sync.Mutex / sync.Cond of the Go runtime", "mode cap: gortsplib.Client, Server, ServerStream, ServerSession (the queue as configured behind Client.WritePacketRTP while recording / on a back channel while playing and behind ServerStream.WritePacketRTP)"}
 	f.Simulated = []string{"goroutine interleaving: every goroutine parks at every lock acquisition, unlock->broadcast gap, processor step and task operation; the scheduler releases exactly one per step, chosen by H(seed, step)"}
 	f.Excluded = []string{"RingBuffer.Reset in the concurrent modes (sequential mode only)", "capacity 0", "Push between Close and Reset (the statement is silent about it)"}
-	f.Rule = "scenario = capacity (power of two 1..256) x 1..8 producer scripts x owner/consumer/closer scripts x optional failing item; each scenario is run under 16 schedule seeds in one bubble; a tenth of the scenarios are the sequential case instead: one caller, phases filling the ring to a seeded level (often exactly the capacity, one below, one above), draining, Close, Pull after Close, Reset, compared operation by operation with a reference FIFO; 8% are the capacity workload of cap.go (real client and server, WriteQueueSize 8..512, a burst of capacity+1..6 writes into the idle queue of each media entry point over tcp/udp: none may be refused before WriteQueueSize were accepted); a run is non-trivial when >= 2 tasks and >= 4 scheduling decisions; distinct = distinct hash of the sequence of (task, site) scheduling decisions"
+	f.Rule = "scenario = capacity (power of two 1..256) x 1..8 producer scripts x owner/consumer/closer scripts x optional failing item; each scenario is run under 16 schedule seeds in one bubble; a third of the schedules use simulation-aware locks and a yield point before every statement of ringbuffer.go (callers held inside the critical sections), 40% use a seeded subset of the sites (each off with probability 0.35, the point between two operations of a task included); a tenth of the scenarios are the sequential case instead: one caller, phases filling the ring to a seeded level (often exactly the capacity, one below, one above), draining, Close, Pull after Close, Reset, compared operation by operation with a reference FIFO; 8% are the capacity workload of cap.go (real client and server, WriteQueueSize 8..512, a burst of capacity+1..6 writes into the idle queue of each media entry point over tcp/udp: none may be refused before WriteQueueSize were accepted); a run is non-trivial when >= 2 tasks and >= 4 scheduling decisions; distinct = distinct hash of the sequence of (task, site) scheduling decisions"
 	f.Assumptions = []string{
-		"interleavings are explored at the granularity of the inserted yield sites (all lock acquisitions and unlock->broadcast gaps of ringbuffer, all steps of asyncprocessor); code between two sites runs atomically with respect to the other controlled goroutines",
+		"interleavings are explored at the granularity of the inserted yield sites (all lock acquisitions and unlock->broadcast gaps of ringbuffer, all steps of asyncprocessor; in runs with simulation-aware locks every statement of ringbuffer.go); code between two sites runs atomically with respect to the other controlled goroutines",
 		"Start and Close are issued by one owner task, as the library does (the processor's running flag is not synchronised)",
 		"pushes that linearise after Close are unconstrained (the statement is silent about them)",
 	}
